@@ -5,6 +5,7 @@ import (
 	"fmt"
 	"io"
 	"time"
+	"verif/sim/vsys"
 
 	gnet "github.com/panjf2000/gnet/v2"
 
@@ -150,6 +151,16 @@ func (h *handler) OnOpen(c gnet.Conn) (out []byte, action gnet.Action) {
 		return nil, gnet.None
 	}
 	w.lcAtOpen(cs)
+	if cs.cp.DupKeep {
+		// the application keeps its own duplicate of the connection's descriptor
+		// (a second reference to the open file): the framework must neither close
+		// it nor keep polling the connection's own number after closing it
+		if fd, err := c.Dup(); err == nil && fd >= 0 {
+			w.k.Transfer(fd, vsys.OwnUser)
+			w.userFds = append(w.userFds, fd)
+			w.probes["conn-dup-kept"]++
+		}
+	}
 	for i := range cs.cp.OpenW {
 		w.doWrite(cs, &cs.cp.OpenW[i], "OnOpen")
 	}
